@@ -216,6 +216,7 @@ class Tracer:
         self.root = os.path.join(os.path.realpath(str(repo)), "nessai") + os.sep
         self.repo = os.path.realpath(str(repo)) + os.sep
         self.rng, self.reads = set(), set()
+        self.order = []          # the first RNG events in execution order (file, function, name)
         self._undo = []
 
     def _note(self, bucket, name, depth=2):
@@ -242,7 +243,15 @@ class Tracer:
         outer = self
 
         def wrapper(*a, **k):
+            n = len(outer.rng)
             outer._note(outer.rng, label)
+            if len(outer.order) < 400:
+                import sys
+                f = sys._getframe(1)
+                fn = os.path.realpath(f.f_code.co_filename)
+                if fn.startswith(outer.root):
+                    outer.order.append((fn[len(outer.repo):], _qual(f.f_code), label))
+            del n
             return obj(*a, **k)
 
         self._undo.append((mod, name, obj))
@@ -274,6 +283,7 @@ def run_job(cfg):
             d = run_config(cfg, model=tr.traced_model(cfg.get("model", "vec")))
         d["rng_calls"] = sorted(tr.rng)
         d["setting_reads"] = sorted(tr.reads)
+        d["rng_order"] = list(tr.order)
         return d
     if cfg.get("repeat"):
         model = make_model(cfg.get("model", "vec")) if cfg.get("reuse_model") else None
